@@ -10,6 +10,7 @@ import (
 	"github.com/relex/slog-agent/base"
 	"github.com/relex/slog-agent/defs"
 	"github.com/relex/slog-agent/util"
+	"github.com/relex/slog-agent/util/vhook"
 )
 
 const (
@@ -188,6 +189,7 @@ func (listener *tcpLineListener) runConnection(connLogger logger.Logger, conn *n
 				connLogger.Warn("read() error: ", readErr)
 			}
 			connAborter.Signal()
+			vhook.G("tcp.conn.aborted")
 		}
 		break
 	}
